@@ -9,17 +9,35 @@ package main
 
 import (
 	"encoding/json"
+	"strings"
 
 	_ "github.com/apmckinlay/gsuneido/builtin" // Exec / Run / Database.Schema need the builtins
 
 	"verif/lib"
+	"verif/sched"
 )
 
 func run(c *lib.Ctx) {
+	// (a) the multiplexer under the controlled scheduler (muxconc.go)
+	for _, sc := range muxScenarios(c) {
+		if c.Expired() {
+			c.Cap("scenario %s not started", sc.Name)
+			continue
+		}
+		sched.Explore(c, sc)
+	}
+	// (b) sequential differential local vs client-server (seqdiff.go)
 	seqdiff(c)
 }
 
 func replay(c *lib.Ctx, raw json.RawMessage) {
+	var probe struct {
+		Scenario string `json:"scenario"`
+	}
+	if json.Unmarshal(raw, &probe) == nil && strings.HasPrefix(probe.Scenario, "mux/") {
+		sched.Replay(c, muxScenarios(c), raw)
+		return
+	}
 	seqdiffReplay(c, raw)
 }
 
@@ -27,7 +45,8 @@ func main() {
 	lib.Main(lib.Spec{
 		ID:    "C40",
 		Level: "exploration",
-		Rule: "seqdiff: every operation sequence on top of 6 handle-opening prefixes over the IDbms/ITran/IQuery/ICursor alphabet (100 operations): " +
+		Rule: "mux: every schedule (lock/atomic/channel/pipe-read granularity) within the deviation bound (preemptions + short reads of 1 byte or up to the 9 byte header) of 2-3 client sessions on one connection sending 1-2 requests of boundary sizes through the real mux reader, writer and worker pool; " +
+			"seqdiff: every operation sequence on top of 6 handle-opening prefixes over the IDbms/ITran/IQuery/ICursor alphabet (100 operations): " +
 			"2 levels = (operations that change handles or data) x (all); thorough adds 3 levels = (core changing operations)^2 x (all); " +
 			"executed in lockstep on DbmsLocal and on DbmsClient<->real server connection over net.Pipe+TLS with identical fresh databases; " +
 			"an evaluation = one sequence whose last operation is applicable (distinct by construction)",
@@ -36,11 +55,11 @@ func main() {
 			"operations that exist only client-server or only locally by design are excluded: Connections, Kill, Use, Unuse, DisableTrigger, Auth, Dump, Load",
 			"handles are not used after their transaction ended (the language layer prevents it)",
 			"schema changes of a table are not issued while an update transaction is open: the moment that transaction notices its abort (conflict with exclusive) is a race inside db19 on either side",
-			"one session, sequential; fragmentation and concurrent sessions are the mux scenario group",
+			"seqdiff is one session, sequential; fragmentation and concurrent sessions are the mux scenario group, where dbms/mux/mux.go, workers.go and util/atomics run under the controlled scheduler over an in-memory duplex (outside a controlled execution the shim falls back to the real primitives, so seqdiff runs with real goroutines)",
 		},
 		Procs:          16,
 		ProcMaxProcs:   1,
-		QuickBudget:    80,
+		QuickBudget:    110,
 		ThoroughBudget: 840,
 		Run:            run,
 		Replay:         replay,
